@@ -38,7 +38,8 @@ class Command:
 class LexResult:
     def __init__(self):
         self.commands = []
-        self.invalid = None       # (reason, offset)
+        self.invalid = None       # (reason, offset) of the first fault
+        self.all_invalid = []     # every fault found (scanning continues after recoverable ones)
         self.legacy = False
         self.comment_spans = []   # (start, end) of line and bracket comments
         self.arg_spans = []
@@ -67,6 +68,7 @@ def lex(text):
     glued = False        # previous token was a quoted/bracket argument or bracket comment, no whitespace since
 
     def fail(reason, off):
+        r.all_invalid.append((reason, off))
         if r.invalid is None:
             r.invalid = (reason, off)
 
